@@ -2,7 +2,7 @@
 import json, subprocess
 from vlib import common, coq, gobuild, ocamlbuild, chunkenc
 
-THEOREMS = ["C12_signed_accept_requires_final_chunk_partial", "C12_signed_truncation_rejected", "C12_unsigned_accept_requires_trailer_partial", "C12_signed_decodes_whole_stream", "C12_signed_fragmentation_independent", "C12_unsigned_any_buffers"]
+THEOREMS = ["C12_signed_accept_requires_final_chunk_partial", "C12_signed_truncation_rejected", "C12_unsigned_accept_requires_trailer_partial", "C12_signed_decodes_whole_stream", "C12_signed_fragmentation_independent", "C12_unsigned_any_buffers", "C12_signed_data_chunk_declares_signature"]
 TARGETS = ["Properties/C12.vo"]
 SECRET, SEED = "secret", "seedsig0123"
 
